@@ -151,8 +151,28 @@ fn key() -> BoxedStrategy<String> {
   prop_oneof![5 => any::<u16>().prop_map(|i| POOL[pick(i, POOL.len())].to_string()), 2 => gen::json_key(), 1 => Just("\0".to_string()), 1 => Just("iss".to_string()), 1 => Just("exp".to_string())].boxed()
 }
 
+/// decimal text with `digits` significant digits at most, magnitude 1e-4 .. 1e7, either sign
+fn decimal(digits: u32) -> BoxedStrategy<String> {
+  (1u64..10u64.pow(digits), 0u32..=digits + 3, any::<bool>()).prop_map(move |(m, scale, neg)| {
+    let text = m.to_string();
+    let s = if scale as usize >= text.len() { format!("0.{}{}", "0".repeat(scale as usize - text.len()), text) } else if scale == 0 { format!("{text}.0") } else { format!("{}.{}", &text[..text.len() - scale as usize], &text[text.len() - scale as usize..]) };
+    if neg { format!("-{s}") } else { s }
+  }).boxed()
+}
+
 fn native() -> BoxedStrategy<NativeVal> {
+  let floats = prop_oneof![
+    3 => decimal(6).prop_map(NativeVal::F32),
+    1 => prop_oneof![Just("1.1"), Just("3.14"), Just("0.1"), Just("0.3"), Just("16777216.0"), Just("0.5"), Just("-2.7")].prop_map(|s| NativeVal::F32(s.to_string())),
+    2 => decimal(15).prop_map(NativeVal::F64),
+    2 => vec(decimal(6), 0..5).prop_map(NativeVal::VecF32),
+    2 => (decimal(6), vec(decimal(5), 0..4), decimal(15)).prop_map(|(ratio, weights, scale)| NativeVal::Measure { ratio, weights, scale }),
+    1 => any::<i64>().prop_map(NativeVal::I128),
+    1 => any::<u64>().prop_map(NativeVal::U128),
+  ];
   let leaf = prop_oneof![
+    floats,
+    floats_again(),
     any::<i8>().prop_map(NativeVal::I8),
     any::<i16>().prop_map(NativeVal::I16),
     any::<i32>().prop_map(NativeVal::I32),
@@ -182,9 +202,15 @@ fn native() -> BoxedStrategy<NativeVal> {
     .boxed()
 }
 
+fn floats_again() -> BoxedStrategy<NativeVal> {
+  // second entry so that floating-point natives make up about a tenth of the native leaves
+  prop_oneof![decimal(6).prop_map(NativeVal::F32), (decimal(6), vec(decimal(5), 0..4), decimal(15)).prop_map(|(ratio, weights, scale)| NativeVal::Measure { ratio, weights, scale })].boxed()
+}
+
 fn claim(depth: u32) -> BoxedStrategy<ClaimSpec> {
   prop_oneof![
     6 => (key(), gen::json_value(depth)).prop_map(|(k, v)| ClaimSpec::Custom(k, v)),
+    1 => (key(), gen::json_doc_value()).prop_map(|(k, v)| ClaimSpec::Custom(k, v)),
     1 => (key(), gen::text()).prop_map(|(k, t)| ClaimSpec::Custom(k, Value::String(t.render()))),
     // the value is itself an object whose only (or first) member carries the claim's own key
     2 => (key(), gen::json_value(2), 0u8..4).prop_map(|(k, v, shape)| {
